@@ -510,6 +510,8 @@ class Engine(object):
             return self.model_app('py_truthy', [v.t], BOOL)
         if isinstance(v, VTuple):
             return BoolV(len(v.items) > 0)
+        if type(v).__name__ == 'VRecList':
+            return Gt(v.n, IntV(0))
         if isinstance(v, VRef):
             o = st.heap[v.loc]
             if isinstance(o, HList):
